@@ -1,7 +1,7 @@
 (** C07 — a response depends only on its own request, not on earlier ones.  (Logical core: the only
     server state the pipeline carries between requests is the query cache and the APQ cache; the POST
-    parameter pool and concurrent requests are covered by the correspondence, see DESIGN.) *)
-From GV Require Import Base.Prelude Model.Pipeline Proofs.PipelineProofs Model.Apq Proofs.ApqProofs.
+    parameter pool is modelled in Model/ParamPool.v; concurrent requests are covered by the correspondence, see DESIGN.) *)
+From GV Require Import Base.Prelude Model.Pipeline Proofs.PipelineProofs Model.Apq Proofs.ApqProofs Model.ParamPool Proofs.ParamPoolProofs.
 Open Scope list_scope.
 
 (** After ANY finite history of requests (any transports, valid or invalid, any cache kind) the
@@ -24,3 +24,36 @@ Theorem C07_only_memory_is_apq_registration : forall H cap h sha q,
   In (sha, q) (c_items (fst (Apq.run H (empty_cache cap) h))) -> H q = sha /\ registered H h sha q.
 Proof. exact apq_inv_lemma. Qed.
 Print Assumptions C07_only_memory_is_apq_registration.
+
+(** The pooled parameter object of the POST transport: for EVERY history of request bodies (any members in any
+    order, repeated, null, of the wrong JSON type, unknown, or not JSON at all) every request's executor is handed
+    exactly what a freshly allocated object would give it - query text, operation name, variables, extensions and
+    headers of one request never reach another. *)
+Theorem C07_pooled_parameters_history_independent : forall hs,
+  serve_pool [] true pzero hs = map (fun h => fill pzero (fst h) (snd h)) hs.
+Proof. exact pool_history_independent_lemma. Qed.
+Print Assumptions C07_pooled_parameters_history_independent.
+Theorem C07_pooled_request_as_if_alone : forall pre hdr body post,
+  nth_error (serve_pool [] true pzero (pre ++ (hdr, body) :: post)) (List.length pre) = Some (fill pzero hdr body).
+Proof. exact pool_request_alone_lemma. Qed.
+Print Assumptions C07_pooled_request_as_if_alone.
+(** in particular a member the body does not carry is the zero value, whatever earlier requests carried *)
+Theorem C07_absent_member_is_zero : forall hs n p ok f,
+  nth_error (serve_pool [] true pzero hs) n = Some (p, ok) ->
+  forall hdr body, nth_error hs n = Some (hdr, body) ->
+  (forall m, In m body -> match m with MText g _ | MObject g _ | MNull g | MWrongType g => pfield_eqb g f = false | _ => True end) ->
+  f <> FHeaders -> f <> FReadTime -> pget p f = PZero.
+Proof. exact pool_absent_member_is_zero_lemma. Qed.
+Print Assumptions C07_absent_member_is_zero.
+(** The statement is false for a clean-up that forgets a field, and for one that is skipped when decoding failed
+    (encoding/json has stored the members before a type error by then). *)
+Theorem C07_forgetful_cleanup_refuted :
+  map (fun r => p_opname (fst r)) (serve_pool [FOpName] true pzero [("h", body_qb); ("h", body_q)]%string) = [PText "B"; PText "B"]%string.
+Proof. exact forgetful_cleanup_witness. Qed.
+Print Assumptions C07_forgetful_cleanup_refuted.
+Theorem C07_no_cleanup_on_error_refuted :
+  map (fun r => (p_opname (fst r), snd r))
+      (serve_pool [] false pzero [("h", [MText FOpName "B"; MWrongType FVariables]); ("h", body_q)]%string)
+  = [(PText "B", false); (PText "B", true)]%string.
+Proof. exact no_cleanup_on_error_witness. Qed.
+Print Assumptions C07_no_cleanup_on_error_refuted.
